@@ -371,6 +371,12 @@ class Ctx:
         return path
 
     def known(self, finding_id, what):
+        # only a finding that known_findings.json lists as `known` for this property is reported as such; anything else that matches a
+        # finding's signature (a finding recorded as fixed, or never recorded) is a violation like any other
+        if not any(f['id'] == finding_id and f['property'] == self.prop and f['status'] == 'known' for f in self.findings):
+            self.violation('the signature of finding %s was met, but known_findings.json does not list it as a known finding of %s (a repaired defect has returned?): %s'
+                           % (finding_id, self.prop, what), dict(kind='finding', id=finding_id, what=what))
+            return
         msg = 'KNOWN-FINDING: property=%s %s: %s' % (self.prop, finding_id, what)
         if msg not in self.known_hits:
             self.known_hits.append(msg)
